@@ -5,6 +5,7 @@ import (
 	"encoding/json"
 	"fmt"
 	"github.com/tobgu/qframe/config/groupby"
+	"github.com/tobgu/qframe/types"
 	"strings"
 	"testing"
 
@@ -344,6 +345,32 @@ func TestC17(t *testing.T) {
 			for r := range data2 {
 				data2[r] = data[(r+shift)%n]
 			}
+			// now and then the second column declares the same values in another order: the two are then not of the same
+			// type, and comparing them is either refused or done by value - never by internal code
+			if size >= 3 && rapid.IntRange(0, 3).Draw(t, "rotateddecl") == 0 {
+				rot := append(append([]string(nil), enumConf[1:]...), enumConf[0])
+				fr := qframe.New(map[string]interface{}{"e": data, "e2": data2, "id": hx.Iota(n)}, newqf.Enums(map[string][]string{"e": enumConf, "e2": rot}))
+				if fr.Err != nil {
+					t.Fatalf("two enum columns over rotated lists: %v\n%s", fr.Err, full())
+				}
+				comp := rapid.SampledFrom([]string{"=", "!="}).Draw(t, "rotcomp")
+				opDesc = fmt.Sprintf("filter e %s column e2 whose value list is rotated", comp)
+				res := fr.Filter(qframe.Filter{Column: "e", Comparator: comp, Arg: types.ColumnName("e2")})
+				if res.Err == nil {
+					var want []int
+					for r := 0; r < n; r++ {
+						a, b := data[r], data2[r]
+						eq := a != nil && b != nil && *a == *b
+						if (comp == "=" && eq) || (comp == "!=" && !eq) {
+							want = append(want, r)
+						}
+					}
+					if got := res.MustIntView("id").Slice(); fmt.Sprint(got) != fmt.Sprint(want) {
+						t.Fatalf("enum columns with rotated value lists compared without an error but not by value: rows %v, by value %v\n%s", clipInts(got), clipInts(want), full())
+					}
+				}
+				break
+			}
 			fr := qframe.New(map[string]interface{}{"e": data, "e2": data2, "id": hx.Iota(n)}, newqf.Enums(map[string][]string{"e": enumConf, "e2": enumConf}))
 			if fr.Err != nil {
 				t.Fatalf("two enum columns over one declared list: %v\n%s", fr.Err, full())
@@ -582,4 +609,11 @@ func minInt(a, b int) int {
 		return a
 	}
 	return b
+}
+
+func clipInts(v []int) []int {
+	if len(v) > 20 {
+		return v[:20]
+	}
+	return v
 }
